@@ -1,5 +1,6 @@
 import difflib
 import re
+import threading
 from dataclasses import dataclass
 from typing import (
     TYPE_CHECKING,
@@ -29,6 +30,7 @@ from django_components.context import _COMPONENT_CONTEXT_KEY, _INJECT_CONTEXT_KE
 from django_components.node import BaseNode
 from django_components.perfutil.component import component_context_cache
 from django_components.util.component_highlight import apply_component_highlight
+from django_components.util.context import snapshot_context
 from django_components.util.exception import add_slot_to_error_message
 from django_components.util.logger import trace_component_msg
 from django_components.util.misc import get_index, get_last_index, is_identifier
@@ -135,7 +137,16 @@ class SlotRef:
 
     # Render the slot when the template coerces SlotRef to string
     def __str__(self) -> str:
+        # While the body of a `{% component %}` tag is rendered only to collect its `{% fill %}` tags,
+        # nothing is to be rendered for real (the output is thrown away). `{% component %}` and `{% slot %}`
+        # tags know this from the Context they are rendered with, but the SlotRef carries its own Context.
+        if getattr(_fill_extraction, "depth", 0):
+            return mark_safe("")
         return mark_safe(self._slot.nodelist.render(self._context))
+
+
+# How many `_extract_fill_content()` calls are in progress in the current thread
+_fill_extraction = threading.local()
 
 
 class SlotIsFilled(dict):
@@ -555,7 +566,10 @@ class SlotNode(BaseNode):
             if key.startswith(_INJECT_CONTEXT_KEY_PREFIX):
                 extra_context[key] = value
 
-        slot_ref = SlotRef(self, context)
+        # NOTE: The slot's default content must render as if the slot was not filled. In the "django" mode
+        # the fill is rendered with this very `context` object (extended with fill-only layers below),
+        # so `{{ default }}` gets a snapshot taken before those layers are added.
+        slot_ref = SlotRef(self, snapshot_context(context) if slot_fill.is_filled else context)
 
         # For the user-provided slot fill, we want to use the context of where the slot
         # came from (or current context if configured so)
@@ -943,8 +957,12 @@ def _extract_fill_content(
     # When, during rendering of this tree, we encounter a {% fill %} node, instead of rendering content,
     # it will add itself into captured_fills, because `FILL_GEN_CONTEXT_KEY` is defined.
     captured_fills: List[FillWithData] = []
-    with context.update({FILL_GEN_CONTEXT_KEY: captured_fills}):
-        content = mark_safe(nodes.render(context).strip())
+    _fill_extraction.depth = getattr(_fill_extraction, "depth", 0) + 1
+    try:
+        with context.update({FILL_GEN_CONTEXT_KEY: captured_fills}):
+            content = mark_safe(nodes.render(context).strip())
+    finally:
+        _fill_extraction.depth -= 1
 
     # If we did not encounter any fills (not accounting for those nested in other
     # {% componenet %} tags), then we treat the content as default slot.
